@@ -321,13 +321,31 @@ Proof.
     + apply IH in H7. exact H7.
 Qed.
 
-Theorem attributes_sorted (src : str) (name : option str) :
-  attrs_sorted src 0 (N.of_nat (length src)) (attributes src name).
+Lemma attrs_sorted_mono (src : str) : forall l lo hi hi' lo', (lo' <= lo)%N -> (hi <= hi')%N ->
+  attrs_sorted src lo hi l -> attrs_sorted src lo' hi' l.
+Proof.
+  induction l as [|a rest IH]; intros lo hi hi' lo' Hlo Hhi H; [exact I|].
+  cbn [attrs_sorted] in *. destruct H as [Hw Hr]. split.
+  - unfold attr_wf in *. destruct Hw as (W1 & W2 & W3 & W4). repeat split; try lia; try assumption.
+    destruct (a_value a) as [[[v vs] ve]|]; [|lia].
+    destruct W4 as (X1 & X2 & X3 & X4 & X5). repeat split; try lia; assumption.
+  - eapply IH; [| |exact Hr]; lia.
+Qed.
+
+(* where attributes() starts scanning: after `<name` when a tag name is given *)
+Definition attr_scan_start (name : option str) : nat :=
+  match name with
+  | Some nm => match nm with [] => 0 | _ :: _ => S (length nm) end
+  | None => 0
+  end.
+
+Theorem attributes_sorted_from (src : str) (name : option str) :
+  attrs_sorted src (N.of_nat (attr_scan_start name)) (N.of_nat (length src)) (attributes src name).
 Proof.
   unfold attributes.
   set (len := length src).
   assert (G : forall start stop,
-             attrs_sorted src 0 (N.of_nat len)
+             attrs_sorted src (N.of_nat start) (N.of_nat len)
                (attrs_go 0 (N.of_nat start) (firstn (stop - start) (skipn start src)))).
   { intros start stop.
     pose proof (attrs_ok_sorted src start (stop - start) _ 0 (attrs_go_ok _ 0 (N.of_nat start))) as H.
@@ -337,20 +355,14 @@ Proof.
       destruct (le_lt_dec start len); [left; lia|right].
       rewrite skipn_all2 by (fold len; lia). apply firstn_nil. }
     destruct Hlen as [Hlen|Hnil].
-    - revert H. generalize (attrs_go 0 (N.of_nat start) (firstn (stop - start) (skipn start src))).
-      generalize (N.of_nat (start + 0)). intros lo l.
-      assert (Hmono : forall l lo hi hi' lo', (lo' <= lo)%N -> (hi <= hi')%N ->
-                        attrs_sorted src lo hi l -> attrs_sorted src lo' hi' l).
-      { clear. induction l as [|a rest IH]; intros lo hi hi' lo' Hlo Hhi H; [exact I|].
-        cbn [attrs_sorted] in *. destruct H as [Hw Hr]. split.
-        - unfold attr_wf in *. destruct Hw as (W1 & W2 & W3 & W4). repeat split; try lia; try assumption.
-          destruct (a_value a) as [[[v vs] ve]|]; [|lia].
-          destruct W4 as (X1 & X2 & X3 & X4 & X5). repeat split; try lia; assumption.
-        - eapply IH; [| |exact Hr]; lia. }
-      apply Hmono; lia.
+    - eapply attrs_sorted_mono; [| |exact H]; lia.
     - rewrite Hnil. exact I. }
-  destruct name as [[|c nm]|]; apply G.
+  destruct name as [[|c nm]|]; cbn [attr_scan_start]; apply G.
 Qed.
+
+Theorem attributes_sorted (src : str) (name : option str) :
+  attrs_sorted src 0 (N.of_nat (length src)) (attributes src name).
+Proof. eapply attrs_sorted_mono; [| |apply attributes_sorted_from]; lia. Qed.
 
 (* ------------------------------------------------------------------ no internal error in is_special *)
 Lemma get_unquoted_value_ok v : value_shape v -> exists u, get_unquoted_value v = Ok u.
